@@ -4,6 +4,8 @@ mod c03;
 mod c06;
 mod c13;
 mod c14;
+mod c18;
+mod pcf;
 mod corpus;
 mod ev;
 mod refbin;
@@ -50,6 +52,7 @@ fn main() {
         "C06" => c06::run(tier, filter),
         "C13" => c13::run(tier, replay.as_ref()),
         "C14" => c14::run(tier, replay.as_ref()),
+        "C18" => c18::run(tier, replay.as_ref()),
         _ => ev::machinery(&format!("unknown property {id}")),
     };
     std::process::exit(code);
